@@ -27,7 +27,9 @@ ASSUMPTIONS = ["reference policy: lib/rv/models.py (written from the statement);
 SHARDS = {"quick": 1, "thorough": 16}
 MIN_DISTINCT = {"quick": 5000, "thorough": 150000}
 
-OPS = ["get", "set", "del", "call"]
+OPS = ["get", "set", "del", "call", "cmp"]
+CMP_NAMES = ["__eq__", "__ne__", "__lt__", "__hash__", "__getattribute__", "__setattr__", "__delattr__", "__init__", "__reduce_ex__", "peek",
+             "_peek", "exposed_peek", "__class__", "__dict__", "__sizeof__", "__dir__", b"__eq__", b"_peek", 5, None]
 TEXT_NAMES = ["foo", "_priv", "__secret", "__add__", "__len__", "next", "PFXfoo", "exposed_foo", "x_foo", "ghost",
               "__class__", "meth", "_pmeth", "__dict__", "__init__", "é", "_mid_PFXfoo", "midPFX"]
 ODD_NAMES = [b"foo", b"_priv", b"meth", b"\xff\xfe", 5, None, ("foo",), 1.5, ["foo"], True]
@@ -42,6 +44,19 @@ def secret(name, k):
 
 class Canary(object):
     """records every attribute read / write / delete; callables stored on it record their calls"""
+
+    # methods on the TYPE: what the comparison handler resolves (it looks the operator name up on type(obj))
+    def peek(self, other):
+        object.__getattribute__(self, "_log").append(("call", "peek", (other,), ()))
+        return ("peeked", other)
+
+    def _peek(self, other):
+        object.__getattribute__(self, "_log").append(("call", "_peek", (other,), ()))
+        return ("private-peeked", other)
+
+    def exposed_peek(self, other):
+        object.__getattribute__(self, "_log").append(("call", "exposed_peek", (other,), ()))
+        return ("exposed-peeked", other)
 
     def __init__(self, log):
         object.__setattr__(self, "_log", log)
@@ -247,6 +262,8 @@ def decide(ctx, pair, cfg, prefix, name, shape, op, k):
             r = ("ok", a.sync_request(consts.HANDLE_SETATTR, proxy, wire_name, value))
         elif op == "del":
             r = ("ok", a.sync_request(consts.HANDLE_DELATTR, proxy, wire_name))
+        elif op == "cmp":
+            r = ("ok", a.sync_request(consts.HANDLE_CMP, proxy, ("other", k), wire_name))
         else:
             r = ("ok", a.sync_request(consts.HANDLE_CALLATTR, proxy, wire_name, cargs, ckw))
     except Exception as e:
@@ -274,6 +291,9 @@ def decide(ctx, pair, cfg, prefix, name, shape, op, k):
             ctx.violation("C06/undecodable-name-succeeded/" + op, "an undecodable bytes name did not fail", wit)
         if eff:
             ctx.violation("C06/undecodable-name-had-effect/" + op, "an undecodable bytes name had an effect", wit)
+        return
+    if op == "cmp":
+        judge_cmp(ctx, r, eff, cfg, prefix, real_name, obj, twin, tlog, k, wit, key_shape, key_name)
         return
     # ---- objects with their own hooks decide instead of the configuration
     if shape == "hooks":
@@ -349,6 +369,37 @@ def decide(ctx, pair, cfg, prefix, name, shape, op, k):
         ctx.violation("C06/wrong-attribute-touched/" + vkey, "effects on the owner's object %r differ from direct access to %r: %r" % (e1[:3], resolved, e2[:3]), wit)
 
 
+def judge_cmp(ctx, r, eff, cfg, prefix, name, obj, twin, tlog, k, wit, key_shape, key_name):
+    """comparison by operator name: the name is resolved on type(obj) under the read permission, then called with (obj, other)"""
+    ctx.count("cmp_decisions")
+    vkey = "cmp/%s/%s" % (key_shape, key_name)
+    ttype = type(twin)
+    if getattr(type(ttype), "_rpyc_getattr", None) is not None:
+        return
+    pcfg = dict(cfg, exposed_prefix=prefix, safe_attrs=models.SAFE_ATTRS)
+    verdict = models.policy(pcfg, "get", name, has_on(ttype))
+    called = [e for e in eff if e[0] in ("set", "del", "call")]
+    if verdict[0] == "deny":
+        ctx.count("denied_decisions")
+        if not (r[0] == "exc" and isinstance(r[1], type) and issubclass(r[1], AttributeError)):
+            ctx.violation("C06/allowed-contrary-to-policy/" + vkey, "policy denies the operator name, peer got %r" % (r,), wit)
+        if called:
+            ctx.violation("C06/denied-but-had-effect/" + vkey, "denied comparison had effects %r" % (called[:3],), wit)
+        return
+    ctx.count("allowed_decisions")
+    try:
+        exp = ("ok", getattr(ttype, verdict[1])(twin, ("other", k)))
+    except Exception as e:
+        exp = ("exc", type(e))
+    got, want = summarise_result(r), summarise_result(exp)
+    ok = (r[0] == "exc" and isinstance(r[1], type) and issubclass(r[1], want[1])) if want[0] == "exc" else got == want
+    if not ok:
+        ctx.violation("C06/outcome-differs/" + vkey, "policy says call type(obj).%s; direct call gives %r, the peer got %r" % (verdict[1], want, got), wit)
+    e2 = [e for e in effects(tlog) if e[0] in ("set", "del", "call")]
+    if called != e2:
+        ctx.violation("C06/wrong-attribute-touched/" + vkey, "effects %r differ from the direct call's %r" % (called[:3], e2[:3]), wit)
+
+
 def judge_restricted(ctx, r, eff, op, name, value, cargs, ckw, k, wit, writable=frozenset(["bar"])):
     ctx.count("restricted_decisions")
     touched = [e for e in eff if e[0] in ("set", "del", "call")]
@@ -406,11 +457,14 @@ def decisions_for(rng, full):
             for sh in shapes:
                 if type(sh) is str and sh.startswith("restricted"):
                     continue
-                for op in OPS:
+                for op in OPS[:4]:
                     yield n, sh, op
+        for n in CMP_NAMES:
+            for sh in PLAIN_SHAPES[:1] + ["service", "partial_hooks"]:
+                yield n, sh, "cmp"
         for rs in ("restricted", "restricted_ro", "restricted_ro_list", "restricted_same"):
             for n in ["foo", "bar", "meth", "_priv", "exposed_foo", "ghost", b"foo", 5]:
-                for op in OPS:
+                for op in OPS[:4]:
                     yield n, rs, op
         for n in ["denyme", "meth"]:
             for op in OPS:
@@ -424,7 +478,10 @@ def decisions_for(rng, full):
                 n = rng.choice(TEXT_NAMES + ODD_NAMES + ["denyme", "meth"])
             else:
                 n = rng.choice(names)
-            yield n, sh, rng.choice(OPS)
+            op = rng.choice(OPS[:4])
+            if rng.random() < .12 and (type(sh) is tuple or sh in ("service", "partial_hooks")):
+                n, op = rng.choice(CMP_NAMES), "cmp"
+            yield n, sh, op
 
 
 def sweep(ctx, rng):
